@@ -70,13 +70,16 @@ def gen_case(rng):
                 elif variant == 'nested' and len(lab) > 1 and q == nested_dim:
                     lab = [lab[rng.randrange(len(lab))]] if rng.random() < 0.6 else lab[:-1]      # a subset: other size
             labs.append(lab)
-        sp = {"dims": list(dims), "labels": labs, "kinds": kinds_j, "values": gen.values(rng, tuple(len(l) for l in labs), 'f')}
+        sp = {"dims": list(dims), "labels": labs, "kinds": kinds_j, "values": gen.values(rng, tuple(len(l) for l in labs), 'f'),
+              # every input has its own label dtypes (narrow / unsigned for some), memory layout and history
+              "ldtypes": [gen.label_dtype(rng, l_, k_, p=0.15) for l_, k_ in zip(labs, kinds_j)],
+              "forder": nd >= 2 and rng.random() < 0.15, "history": rng.random() < 0.12, "prime": rng.random() < 0.3}
         if variant == 'dimorder' and j > 0 and nd > 1:
             p = list(range(nd))
             while p == list(range(nd)):
                 rng.shuffle(p)
-            sp = {"dims": [sp["dims"][i] for i in p], "labels": [sp["labels"][i] for i in p], "kinds": [sp["kinds"][i] for i in p],
-                  "values": np.transpose(sp["values"], p).copy()}
+            sp = dict(sp, dims=[sp["dims"][i] for i in p], labels=[sp["labels"][i] for i in p], kinds=[sp["kinds"][i] for i in p],
+                      ldtypes=[sp["ldtypes"][i] for i in p], values=np.transpose(sp["values"], p).copy())
         specs.append(sp)
     align = rng.random() < 0.4
     keys = rng.choice([None, 'str', 'int'])
